@@ -385,5 +385,5 @@ func TestVerifC14(t *testing.T) {
 	c.Require("c14.rounds_compared", int64(c.N(12, 80)))
 	c.Require("c14.restart_between_stages", int64(c.N(3, 20)))
 	c.Require("c14.files_read", int64(c.N(3, 20)))
-	c.Require("c14.optin_then_changed_in_next_round", int64(c.N(30, 200)))
+	c.Require("c14.optin_then_changed_in_next_round", int64(c.N(30, 100)))
 }
